@@ -230,6 +230,7 @@ func RMsg(r int) string {
 	return rec
 }
 func RUnchanged(r int) bool                       { return accBool("RUnchanged") }
+func REqual(r1, r2 int) bool                      { return accBool("REqual") }
 func DIs(doc int, path string, kind int) bool     { return accBool("DIs") }
 func DBool(doc int, path string) bool             { return accBool("DBool") }
 func DInt(doc int, path string) int64             { return accInt("DInt") }
